@@ -191,6 +191,9 @@ def main():
         s = {E(i, h) for i, h in zip(range(3), hs)}
         pm.append(violation_message(ns["s_hash"], tags=s, cfg={"k": 1}))
     same("programmed_hash", pm)
+    # 2c. sets whose elements have no total order (mixed types; frozensets, which are ordered by inclusion only)
+    out["mixed_set"] = violation_message(ns["s_hash"], tags={1, "a", (2,), "bb", None}, cfg={"k": 1})
+    out["set_of_frozensets"] = violation_message(ns["s_hash"], tags={frozenset(["a"]), frozenset(["b"]), frozenset(["c", "d"]), frozenset(["e"])}, cfg={"k": 1})
     # 3. unrepresentable values are left out (named condition and lambda condition)
     args = dict(a=1, cb=(lambda: 1), klass=ns["Cls"], mod=math, fn=len, meth=ns["WM"].meth)
     for label, fn in (("named", ns["s_named"]), ("lambda_unrep", ns["s_lambda_unrepresentable"])):
@@ -204,7 +207,9 @@ def main():
             local.append({"symptom": "representable_argument_missing", "scenario": label, "detail": msg[:300]})
     # 3b. ... also when the class / function / builtin is the RESULT of a call or a subscript inside the condition
     for cond_src, call_kwargs in (
-            ("type(a) == str", {}), ("tbl['f'] is None", {}), ("tbl['k'] is None", {}), ("getattr(a, 'bit_length') is None", {}), ("ident_fn(len) is None", {})):
+            ("type(a) == str", {}), ("tbl['f'] is None", {}), ("tbl['k'] is None", {}), ("getattr(a, 'bit_length') is None", {}), ("ident_fn(len) is None", {}),
+            ("a.__add__ is None", {}), ("str.upper is None", {}), ("type(a).__add__ is None", {}), ("ident_fn(a.__eq__) is None", {}),
+            ("tbl.get is None", {}), ("dict.fromkeys is None", {})):
         src2 = "import icontract\ndef ident_fn(v):\n    return v\nclass Cls2: pass\nclass Tbl(dict):\n    def __repr__(self):\n        return 'Tbl'\n@icontract.require(lambda a, tbl: {})\ndef f(a, tbl, other=3):\n    return 1\n".format(cond_src)
         ns2 = core.load_source(src2, "c20u")
         msg = violation_message(ns2["f"], a=1, tbl=ns2["Tbl"](f=ns2["ident_fn"], k=ns2["Cls2"]))
@@ -212,12 +217,24 @@ def main():
         body = msg.split("\n", 1)[-1]
         lines_ = [ln for ln in body.split("\n")[1:] if " was " in ln and not ln.startswith("tbl was")]
         for ln in lines_:
-            if any(b in ln for b in ("<function", "<class", "<module", "<built-in", "<bound method")):
+            if any(b in ln for b in ("<function", "<class", "<module", "<built-in", "<bound method", "<method", "<slot wrapper")):
                 local.append({"symptom": "unrepresentable_value_listed", "scenario": "result_of_call_or_subscript",
                               "detail": "{!r} in the message for {!r}: {!r}".format(ln, cond_src, msg[:300])})
                 break
         if "a was 1" not in msg:
             local.append({"symptom": "representable_argument_missing", "scenario": "result_of_call_or_subscript", "detail": msg[:300]})
+    # 3c. ... and the built-in names which are neither functions nor classes (NotImplemented, Ellipsis, __debug__, ...)
+    for cond_src, name in (("a is NotImplemented", "NotImplemented"), ("a is Ellipsis", "Ellipsis"), ("__debug__ and a is None", "__debug__"),
+                           ("a is not None and a is NotImplemented", "NotImplemented"), ("[a, Ellipsis][0] is None", "Ellipsis")):
+        src3 = "import icontract\n@icontract.require(lambda a: {})\ndef f(a, other=3):\n    return 1\n".format(cond_src)
+        ns3 = core.load_source(src3, "c20b")
+        msg = violation_message(ns3["f"], a=1)
+        out["builtin_name:" + cond_src] = msg
+        if any(ln.startswith(name + " was ") for ln in msg.split("\n")) or (": " + name + " was ") in msg:
+            local.append({"symptom": "unrepresentable_value_listed", "scenario": "builtin_name",
+                          "detail": "the built-in {} is listed in the message for {!r}: {!r}".format(name, cond_src, msg[:300])})
+        if "a was 1" not in msg:
+            local.append({"symptom": "representable_argument_missing", "scenario": "builtin_name", "detail": msg[:300]})
     # 4. _ARGS/_KWARGS only when named
     msg = violation_message(ns["s_args_hidden"], 1, 2, 3, z=4)
     out["args_hidden"] = msg
